@@ -288,6 +288,47 @@ func (vm *VM) SelfTest(maxLen int) (int, []string) {
 				for _, c := range cands {
 					others = append(others, c, "\""+c+"\"")
 				}
+				// search functions and JSON quoting over strings with decimal atoms
+				for _, x := range append(append([]Value{}, shapes...), mkStr([]Atom{{Kind: aConc, S: "a b "}, {Kind: aDec, T: a}, {Kind: aConc, S: " c%"}}), mkStr([]Atom{{Kind: aDec, T: a}, {Kind: aConc, S: "% "}, {Kind: aDec, T: b}, {Kind: aConc, S: "\\q\""}})) {
+					cx := concretize(x, model)
+					for _, pat := range []string{" ", "/", "%", "USD", "\"", "c%", " c"} {
+						chk := func(name string, want interface{}) {
+							defer func() {
+								if r := recover(); r != nil {
+									if _, isVMErr := r.(VMError); isVMErr {
+										return // a refusal is inconclusive, not a wrong answer
+									}
+									panic(r)
+								}
+							}()
+							n++
+							got := vm.intrinsics[name](vm, nil, []Value{x, pat})
+							if fmt.Sprint(got) != fmt.Sprint(want) {
+								fail(name+" "+pat, cx, fmt.Sprint(got), fmt.Sprint(want))
+							}
+						}
+						chk("strings.Contains", strings.Contains(cx, pat))
+						chk("strings.HasPrefix", strings.HasPrefix(cx, pat))
+						chk("strings.HasSuffix", strings.HasSuffix(cx, pat))
+						chk("strings.Index", int64(strings.Index(cx, pat)))
+					}
+					func() {
+						defer func() {
+							if r := recover(); r != nil {
+								if _, isVMErr := r.(VMError); isVMErr {
+									return
+								}
+								panic(r)
+							}
+						}()
+						n++
+						got := concretize(vm.jsonQuote(x), model)
+						wb, _ := json.Marshal(cx)
+						if got != string(wb) {
+							fail("json.Marshal(string with decimals)", cx, got, string(wb))
+						}
+					}()
+				}
 				for _, x := range shapes {
 					for _, y := range others {
 						n++
